@@ -218,7 +218,8 @@ def check_program(case):
                 if st[-1] == st[0] and len(st) >= 3 and st[0] not in st[1:-1]:
                     ch = _chain(g)
                     mid = [type(D[i][1](f)).__name__ for i in st[1:-1]]
-                    if [c for c in ch if c != type(g).__name__] != mid[::-1]:
+                    # (two decorators of ONE class - try_none / try_false, pd2np / pd2np(exc=) - are the same wrapper to the no-double-wrapping rule: not judged here)
+                    if type(g).__name__ not in mid and len(set(mid)) == len(mid) and [c for c in ch if c != type(g).__name__] != mid[::-1]:
                         out.viol('double-wrapping', '%s of %s: the decorators in between were lost or reordered: chain %s, expected %s below one %s' % (
                             sname, label, ch, mid[::-1], type(g).__name__), outer=names[-1], n=len(st), through_chain=True, lost=True)
                     if ch.count(type(g).__name__) != 1:
